@@ -1,6 +1,9 @@
 // Defect (C10/C18): in Senpai::run a resolved cgroup whose id is unavailable this tick (fstat of its directory fd
 // failed) hits `if (!id_opt) continue;` WITHOUT advancing the iterator: the loop spins forever and the daemon's main
 // loop never returns.  The demo fails fstat() (EIO) for directory fds, as a failing/stale file system would.
+#ifndef DEMO_TMP
+#define DEMO_TMP "/tmp/oomd_demo"   /* scratch directory; replay/replay.py passes -DDEMO_TMP=... */
+#endif
 #include <dlfcn.h>
 #include <signal.h>
 #include <sys/stat.h>
@@ -29,7 +32,7 @@ extern "C" int fstat64(int fd, struct stat64* st) {
 static void on_alarm(int) { const char m[] = "VIOLATION: Senpai::run did not return within 3 s (infinite loop on a cgroup without id)\n"; if (write(1, m, sizeof(m) - 1)) {} _exit(1); }
 using namespace Oomd;
 int main() {
-  const std::string root = "/tmp/w/d18b/cgroupfs";
+  const std::string root = DEMO_TMP "/cgroupfs";
   ::mkdir(root.c_str(), 0755); ::mkdir((root + "/a.slice").c_str(), 0755);
   for (auto f : {"cgroup.controllers", "memory.current", "memory.high", "memory.max", "memory.min", "memory.stat", "memory.pressure"})
     std::ofstream(root + "/a.slice/" + f) << (std::string(f) == "memory.pressure" ? "some avg10=0.00 avg60=0.00 avg300=0.00 total=0\nfull avg10=0.00 avg60=0.00 avg300=0.00 total=0\n" : "0\n");
